@@ -70,6 +70,7 @@ def run(ck):
     ok, _ = ck.coq_build(["props/C06.vo", "props/C06ix.vo", "extract/C06_extract.vo"])
     ck.print_assumptions(["DSP.C06", "DSP.C06ix"], ["DSP.C06." + t for t in THEOREMS] + ["DSP.C06ix." + t for t in IX_THEOREMS])
     ck.source_tie("cond")
+    ck.source_tie("condslice")
     ck.hygiene()
     ck.ocaml_build()
     ck.harness_build(["c06"])
